@@ -916,8 +916,54 @@ def unit_bounded_meta_override(tier=None, seed=0):
     return res
 
 
+def unit_bounded_file_identity(tier=None, seed=0):
+    """entries are keyed by the hash of the measurement file: "storing further curves never alters entries already
+    present" needs different files to get different keys -- wherever in the file they differ (the deductive units take
+    hash_file as an injective atom)"""
+    import pathlib
+    import shutil
+    import tempfile
+    import time
+    import numpy as np
+    from nanite.rate import io as rio
+    t0 = time.time()
+    tmp = pathlib.Path(tempfile.mkdtemp(prefix="vf-c16h-"))
+    problems, ne = [], 0
+    try:
+        rng = np.random.default_rng(seed or 5)
+        for size in (10, 70_000, 1_200_000, 3_000_000):
+            base = rng.integers(0, 256, size, dtype=np.uint8)
+            fa = tmp / f"a_{size}.bin"
+            base.tofile(fa)
+            for where in sorted({0, size // 2, size - 1}):
+                other = base.copy()
+                other[where] ^= 0xFF
+                fb = tmp / f"b_{size}_{where}.bin"
+                other.tofile(fb)
+                ne += 1
+                if rio.hash_file(fa) == rio.hash_file(fb):
+                    problems.append({"file size": size, "byte that differs": where,
+                                     "what": "two different measurement files get the same key"})
+            fc = tmp / f"c_{size}.bin"
+            base.tofile(fc)
+            ne += 1
+            if rio.hash_file(fa) != rio.hash_file(fc):
+                problems.append({"file size": size, "what": "equal files get different keys"})
+    finally:
+        shutil.rmtree(tmp, ignore_errors=True)
+    res = UnitResult(unit="bounded.file_identity")
+    res.bounded.append(BoundedResult(
+        bid="C16.bounded.different_files_different_keys", ok=not problems, evaluations=ne, distinct=ne,
+        bound="random files of 10 B, 70 kB, 1.2 MB and 3 MB; one byte flipped at the start, in the middle, at the end",
+        detail="keys differ exactly when the files differ" if not problems else str(problems[0])[:300],
+        samples=[], failing_input=problems[0] if problems else None,
+        witness="" if not problems else f"size{problems[0]['file size']}", time_s=round(time.time() - t0, 2)))
+    return res
+
+
 def units(tier):
     us = [Unit("save_hdf5", unit_save), Unit("load_hdf5", unit_load), Unit("codec_lemmas", unit_codecs),
+          Unit("bounded.file_identity", unit_bounded_file_identity),
           Unit("bounded.container_sequences", unit_bounded_sequences),
           Unit("bounded.meta_override", unit_bounded_meta_override)]
     if tier == "thorough" and not os.environ.get("VF_NO_CANARIES") and str(REPO) == "/repo":
